@@ -184,6 +184,7 @@ def run(F, R):
 
     # ---------------------------------------------------------------- R4 fresh decoration per send
     R.rule("C03-R4", "between any two sends there is a RequestBuilder::build (hence a decoration with a fresh nonce) and a request_id(GUID::new()); the send consumes that build's request")
+    lib.check_as_configured(R, "C03-R4", W, sm, {"cup_handler": "cup_handler", "http": "http"})
     reqs = sm.env(S, "Http", "request")
     decs = sm.env(S, "Cup", "decorate_request")
     # "with a CUP handler configured": the no-handler edge of build_intermediate is out of scope
